@@ -4,6 +4,8 @@
    lemmas they restate, so they cannot drift from what is proved. *)
 From PowHsm Require Import Model.Cert.
 From PowHsm Require Import Proofs.CertProofs.
+From PowHsm Require Import Gen.Src.
+From PowHsm Require Import Proofs.SrcEquivCert.
 Open Scope N_scope.
 
 (* for every signature oracle and every path of any depth: the walk reports Valid exactly when it reaches the last element and every link holds w.r.t. its certifier (the root of trust for the topmost element, the previous element after) *)
@@ -76,5 +78,19 @@ Theorem C06_validate_total :
          parse_cert b64_norm version m = LOk c ->
          In tg (c_targets c) -> exists v : verdict, validate_target link_ok c tg = Some v.
 Proof. exact (@validate_total). Qed.
+
+(* TIE BY TRANSLATION: HSMCertificate.validate_and_get_values of admin/certificate_v1.py, as regenerated from the Python source text on this run (two while-loops, list append / pop, result dictionary), returns for every certificate with string names whose targets resolve, every root object and every behaviour of the element methods (oracles) exactly the verdict map of the model - entry (True, value, tweak) or (False, first failing name) per target - given fuel of at least the number of elements plus one *)
+Theorem C06_source_walk_is_model :
+  forall (link_ok : celem -> certifier -> bool) (value_of tweak_of : celem -> pr pv)
+           (root_pv : pv) (call_method : string -> pv -> list pv -> pr pv) 
+           (c : cert) (fuel : nat),
+         oracle_ok link_ok value_of tweak_of root_pv call_method ->
+         c_version c = 1%Z ->
+         str_named c ->
+         targets_resolve link_ok c ->
+         (S (Datatypes.length (c_elems c)) <= fuel)%nat ->
+         src_HSMCertificate__validate_and_get_values fuel call_method (cert_pv c) root_pv =
+         spec_results link_ok value_of tweak_of c (c_targets c) [].
+Proof. exact (@src_validate_v1_ok). Qed.
 
 Example C06_nonvacuous : True. Proof. exact I. Qed. (* four-element chains (device -> attestation -> ui/signer) closed by vm_compute in Proofs/CertProofs.v, Module Examples: all valid, first failure named, one target bad while the other stays valid *)
